@@ -112,6 +112,11 @@ func expectDetect(op *Op, x []byte, st state) expectation {
 	if reach {
 		return expectation{key: octet, wantErr: true}
 	}
+	if op.Kind == "file" && d.FaultAt >= 0 && d.FaultAt <= len(x) {
+		// a file failing beyond the header: how much DetectFile reads from a file it
+		// opened itself is not stated, so the failure may or may not surface
+		corner = true
+	}
 	return expectation{key: ok, corner: corner, okKey: ok}
 }
 
